@@ -9,7 +9,7 @@
 //! Correspondence: result class (ok / refused / failed), contents and segment count after
 //! compaction vs `SL.Contents.compact` with `SL.Doc.project` / `ingestOk` / `compactSafe`; stored
 //! fields of every live document vs `SL.Doc.project`.
-use super::c04::{canon, canon_map, gen_doc, model_contents, schema_json, Store, AS, TAGS, TS, WORDS};
+use super::c04::{canon, canon_map, gen_doc, model_contents, schema_has_unrebuildable_field, schema_json, Store, AS, TAGS, TS, WORDS};
 use crate::idx;
 use crate::proto::Driver;
 use crate::rng::Rng;
@@ -228,10 +228,10 @@ impl Prop for C14 {
     "C14"
   }
   fn rule(&self) -> &'static str {
-    "case = (storage fs|mem, positions, schema variant 0..4, 2–5 commits of adds/upserts/deletes over 8 ids with documents containing empty arrays, nulls, multi-valued and nested values, ~20 queries + ~20 filters); observations before/after `compact` from fresh readers; non-trivial when (the schema is compact-safe, ≥2 segments and ≥1 live document existed before compaction and ≥6 probes selected a non-empty proper subset of the live documents) or (the schema is not compact-safe and ≥2 segments existed, i.e. the refusal path ran)"
+    "case = (storage fs|mem, positions, schema variant 0..7 (unstored indexed/fast field at top level, in a nested object, in a nested-in-nested object), 2–5 commits of adds/upserts/deletes over 8 ids with documents containing empty arrays, nulls, multi-valued and nested values, ~20 queries + ~20 filters); observations before/after `compact` from fresh readers; non-trivial when (the schema is compact-safe, ≥2 segments and ≥1 live document existed before compaction and ≥6 probes selected a non-empty proper subset of the live documents) or (the schema is not compact-safe and ≥2 segments existed, i.e. the refusal path ran)"
   }
   fn count(&self, tier: Tier) -> usize {
-    tier.pick(60, 2000)
+    tier.pick(72, 2000)
   }
   fn gen(&self, rng: &mut Rng, _tier: Tier, i: usize) -> Value {
     let mem = rng.chance(1, 2);
@@ -242,6 +242,9 @@ impl Prop for C14 {
       11 => 4,
       3 => 2,
       8 => 3,
+      1 => 5,
+      7 => 6,
+      9 => 7,
       _ => 0,
     };
     let n_batches = 2 + rng.below(4);
@@ -268,8 +271,29 @@ impl Prop for C14 {
       }
       batches.push(json!({"adds": adds, "dels": dels, "dels_first": rng.chance(1, 2)}));
     }
-    let queries: Vec<Value> = (0..20).map(|_| json!({"query": gen_query(rng, positions, 1)})).collect();
-    let filters: Vec<Value> = (0..20).map(|_| json!({"query": {"type": "match_all"}, "filter": gen_filter(rng, 2)})).collect();
+    let mut queries: Vec<Value> = (0..20).map(|_| json!({"query": gen_query(rng, positions, 1)})).collect();
+    if kind == 7 {
+      // the indexed-only nested keyword is reachable through term queries on its path
+      for (j, a) in AS.iter().enumerate() {
+        queries[j] = json!({"query": {"type": "term", "field": "c.a2", "value": a.to_lowercase()}});
+      }
+    }
+    let mut filters: Vec<Value> = (0..20).map(|_| json!({"query": {"type": "match_all"}, "filter": gen_filter(rng, 2)})).collect();
+    // filters over the unstored property of the refusal schemas (top-level, nested, nested-in-nested)
+    let special: Vec<Value> = match kind {
+      1 => vec![json!({"KeywordEq": {"field": "tag", "value": "red"}})],
+      4 => vec![json!({"I64Range": {"field": "fo", "min": 0, "max": 4}}), json!({"I64Range": {"field": "fo", "min": 3, "max": 9}})],
+      5 => vec![
+        json!({"Nested": {"path": "c", "filter": {"I64Range": {"field": "k2", "min": 0, "max": 2}}}}),
+        json!({"Nested": {"path": "c", "filter": {"I64Range": {"field": "k2", "min": 2, "max": 6}}}}),
+        json!({"Nested": {"path": "c", "filter": {"And": [{"I64Range": {"field": "k2", "min": 0, "max": 6}}, {"KeywordEq": {"field": "a", "value": "p0"}}]}}}),
+      ],
+      6 => TS.iter().map(|t| json!({"Nested": {"path": "c", "filter": {"Nested": {"path": "r", "filter": {"KeywordEq": {"field": "t2", "value": t}}}}}})).collect(),
+      _ => vec![],
+    };
+    for (j, f) in special.into_iter().enumerate() {
+      filters[j] = json!({"query": {"type": "match_all"}, "filter": f});
+    }
     json!({"mem": mem, "positions": positions, "schema_kind": kind, "shape_stable_nested": stable, "batches": batches, "queries": queries, "filters": filters})
   }
 
@@ -421,7 +445,7 @@ impl Prop for C14 {
     }
     let exp_after = observe(&index, &exp_probe_list).map(|x| x.1).unwrap_or_default();
     // ---- finder: the property on the implementation alone ----
-    let safe_schema = kind != 1 && kind != 4 && case.get("schema").is_none();
+    let safe_schema = !schema_has_unrebuildable_field(&schema);
     let mut selective = 0;
     for p in probes_b.iter() {
       if let Some(ids) = p["ids"].as_array() {
@@ -433,6 +457,9 @@ impl Prop for C14 {
     match res_class.as_str() {
       "panic" => s.fail("compact.panic", "compact panicked", case, json!(res)),
       "refused" => {
+        if safe_schema {
+          s.fail("compact.safe-schema-refused", "compaction refused although every indexed/fast field and nested property of the schema is stored", case, json!(res));
+        }
         if manifest_a != manifest_b {
           s.fail("compact.refuse-changed-manifest", "compaction refused but MANIFEST.json changed", case, json!(res));
         }
@@ -453,6 +480,9 @@ impl Prop for C14 {
         s.fail(sig, "compaction of a compact-safe schema returns an error: a live document's stored form lacks a required nested property, so re-ingesting it fails (on the filesystem backend a partial segment file is left behind)", case, json!({"error": res, "files_left_behind": listing_a != listing_b}));
       }
       _ => {
+        if !safe_schema && segs_b >= 2 {
+          s.fail("compact.unrebuildable-field-not-refused", "the schema has an indexed/fast field or nested property that is not stored, yet compaction of several segments did not refuse (its data cannot be rebuilt from the stored documents)", case, json!({"segments_before": segs_b, "segments_after": segs_a}));
+        }
         if segs_a > 1 {
           s.fail("compact.not-single-segment", "more than one segment after compaction", case, json!(segs_a));
         }
@@ -550,7 +580,7 @@ impl Prop for C14 {
           s.disagree("compact.tombstones-after", &sub, json!(tomb_a), after_m["tombstones"].clone());
         }
       }
-      if m["safe"].as_bool() != Some(safe_schema) && case.get("schema").is_none() {
+      if m["safe"].as_bool() != Some(safe_schema) {
         s.disagree("compact.safe-schema", &sub, json!(safe_schema), m["safe"].clone());
       }
       // stored projection of every live document
